@@ -258,7 +258,8 @@ struct Acc {
     samples: Vec<Value>,
 }
 
-fn check_event(acc: &mut Acc, s: &Schema, label: &str, content: &Value, redacted: bool, reversed: bool) {
+/// the event JSON of a schema with the given content (original or redacted form)
+fn build_event(s: &Schema, content: &Value, redacted: bool) -> Value {
     let mut base = Map::new();
     base.insert("type".into(), json!(s.ty));
     // a redacted event keeps exactly the content keys the redaction algorithm protects
@@ -296,7 +297,12 @@ fn check_event(acc: &mut Acc, s: &Schema, label: &str, content: &Value, redacted
         base.insert("room_id".into(), json!("!r:s"));
     }
     base.insert("org.example.top_level_extra".into(), json!(true));
-    let ev = Value::Object(base);
+    Value::Object(base)
+}
+
+fn check_event(acc: &mut Acc, s: &Schema, label: &str, content: &Value, redacted: bool, reversed: bool) {
+    let ev = build_event(s, content, redacted);
+    let timeline = matches!(s.kind, Kind::State | Kind::Message);
     let mut text = String::new();
     render(&ev, reversed, &mut text);
     acc.n += 1;
@@ -504,6 +510,26 @@ fn check_event(acc: &mut Acc, s: &Schema, label: &str, content: &Value, redacted
             }
         }
     }
+}
+
+/// (kind, JSON text) of every generated event in sorted key order: 0 timeline, 1 ephemeral, 2 account data, 3 to-device
+pub(super) fn event_texts() -> Vec<(u8, String)> {
+    let mut out = vec![];
+    for s in schemas() {
+        for (_label, content) in contents(&s, false) {
+            for redacted in [false, true] {
+                if redacted && !matches!(s.kind, Kind::State | Kind::Message) {
+                    continue;
+                }
+                let ev = build_event(&s, &content, redacted);
+                let mut text = String::new();
+                render(&ev, false, &mut text);
+                let k = match s.kind { Kind::State | Kind::Message => 0, Kind::Ephemeral => 1, Kind::Account => 2, Kind::ToDevice => 3 };
+                out.push((k, text));
+            }
+        }
+    }
+    out
 }
 
 pub fn run(tier: &str) -> Report {
